@@ -13,6 +13,7 @@ UserDirectives(S, full) == {CanonDirective(full.directives[k]) : k \in {j \in 1.
 Clause(c) ==
   LET g == IntroGraph(c.schema) IN
   IF \E k \in 1..Len(c.results) : c.results[k].result # Project(c.full, c.results[k].opts) THEN "option-result-differs-from-projection-of-full-result"
+  ELSE IF ~SelfContained(c.full) THEN "result-refers-to-a-type-it-does-not-list"
   ELSE IF UserTypes(c.schema, c.full) # g.types THEN "types-differ-from-IntroGraph"
   ELSE IF UserDirectives(c.schema, c.full) # g.directives THEN "directives-differ-from-IntroGraph"
   ELSE IF c.full.queryType # g.queryType \/ c.full.mutationType # g.mutationType \/ c.full.subscriptionType # g.subscriptionType THEN "root-types-differ-from-IntroGraph"
@@ -20,6 +21,6 @@ Clause(c) ==
   ELSE "ok"
 WhichOption(c) == IF \E k \in 1..Len(c.results) : c.results[k].result # Project(c.full, c.results[k].opts)
                   THEN (CHOOSE k \in 1..Len(c.results) : c.results[k].result # Project(c.full, c.results[k].opts)) ELSE 0
-DiffTypes(c) == {t.name : t \in (UserTypes(c.schema, c.full) \ IntroGraph(c.schema).types) \cup (IntroGraph(c.schema).types \ UserTypes(c.schema, c.full))}
+DiffTypes(c) == IF ~SelfContained(c.full) THEN Referenced(c.full) \ Listed(c.full) ELSE {t.name : t \in (UserTypes(c.schema, c.full) \ IntroGraph(c.schema).types) \cup (IntroGraph(c.schema).types \ UserTypes(c.schema, c.full))}
 Check == LET c == Cases[i] cl == Clause(c) IN cl = "ok" \/ PrintT(ToJson([viol |-> i, clause |-> cl, which |-> WhichOption(c), types |-> DiffTypes(c)]))
 =============================================================================
